@@ -24,8 +24,8 @@ class Died(Exception):
 
 
 class Session:
-    def __init__(self, exe):
-        env = dict(os.environ); env.update(vlib.ASAN_ENV)
+    def __init__(self, exe, extra_env=None):
+        env = dict(os.environ); env.update(vlib.ASAN_ENV); env.update(extra_env or {})
         self.p = subprocess.Popen([exe], stdin=subprocess.PIPE, stdout=subprocess.PIPE, stderr=subprocess.PIPE, env=env)
         self.log = []          # every command and every output line, for replay files
         self.conn_open = False      # endpoint 0 (single-endpoint scenarios)
